@@ -81,6 +81,9 @@ FinalNormal ==
    \cup (IF result.kind = "exit" /\ result.code # 0 THEN {"exit status " \o ToString(result.code) \o " although no fault was injected"} ELSE {})
    \cup (IF result.kind = "exit" /\ ~result.banner THEN {"completion banner missing"} ELSE {})
    \cup (IF amf.ngSetup THEN {} ELSE {"NG Setup never happened"})
+   \cup (LET cs == SelectSeq(ReportsAt(k), LAMBDA e : e.ev = "ConnectToAmf") IN
+         IF Len(cs) = 1 /\ cs[1].amfIP = Cfg.amfIp /\ cs[1].amfPort = Cfg.amfPort /\ cs[1].stgIP = Cfg.stgIp /\ cs[1].stgPort = Cfg.stgPort THEN {}
+         ELSE {"the N2 connection was not requested with the configured addresses and ports: " \o ToString(cs)})
    \cup (IF Len(amf.ues) = Cnt.reg THEN {} ELSE {ToString(Len(amf.ues)) \o " UEs registered, configuration asks for " \o ToString(Cnt.reg)})
    \cup UNION {LET c == amf.ues[i]
                    wantSt == IF i <= NDereg THEN "gone" ELSE "registered"
